@@ -2,6 +2,7 @@ package mon
 
 import (
 	"fmt"
+	"strings"
 
 	"github.com/ChrisTrenkamp/xsel"
 
@@ -18,7 +19,7 @@ import (
 func init() {
 	Register(&Monitor{
 		ID: "C12",
-		Rule: "per generated document (namespaces, PIs, comments, xml:lang on self/ancestors/nowhere with tags from {2-3 letter primary, script, region, variant, private use, empty, mixed case}): local-name/namespace-uri/name with no argument from every context node of every kind and with arguments that are empty, singleton, multi-node (reverse-axis results, unions, reverse-ordered variables); count() on node-sets and on the three other types (must be an error); lang(L) from every node of every kind with L from {equal, prefix at a subtag boundary, prefix inside a subtag, longer, other case, unrelated, empty}; " +
+		Rule: "per generated document (namespaces, PIs, comments, xml:lang on self/ancestors/nowhere with tags from {2-3 letter primary, script, region, variant, private use, empty, mixed case}): local-name/namespace-uri/name with no argument from every context node of every kind and with arguments that are empty, singleton, multi-node (reverse-axis results, unions, reverse-ordered variables); count() on node-sets and on the three other types (must be an error); every tenth case is an HTML tag soup (with SVG/MathML foreign content) read with ReadHtml, judged against the names of the HTML5 parse tree; lang(L) from every node of every kind with L from {equal, prefix at a subtag boundary, prefix inside a subtag, longer, other case, unrelated, empty}; " +
 			"oracle = reference model; relation name(x) = local-name(x) iff namespace-uri(x) = ''. distinct_nontrivial = distinct (function, context/argument kind, result) triples",
 		NCases: func(tier string) int { return map[string]int{"quick": 3000, "thorough": 120000}[tier] },
 		Case:   c12Case,
@@ -68,7 +69,43 @@ func langProbes(g *rng.R, tag string) []string {
 	return out
 }
 
+// c12HTML: the name functions on documents read with ReadHtml; the reference names are those of
+// the HTML5 parse tree (case-adjusted SVG/MathML names kept, prefixes stripped).
+func c12HTML(r *evid.Run, idx int, g *rng.R) {
+	w, src, err := newHTMLWorld(g)
+	r.Count("cases_through_ReadHtml", 1)
+	if err != nil {
+		r.Violate("name/through-ReadHtml", map[string]any{"case": idx, "what": "the tree ReadHtml built differs from the HTML5 parse tree of the same text: " + err.Error(), "html": src})
+		return
+	}
+	if w == nil {
+		return
+	}
+	for _, n := range w.d.All {
+		for _, f := range []string{"name", "local-name", "namespace-uri"} {
+			if v, ok := w.check(r, "html/"+f+"/"+n.Kind.String(), idx, n, xast.Fn(f), false); ok {
+				r.Tab("function_x_context", "html "+f+"() from "+n.Kind.String(), 1)
+				r.Sig(fmt.Sprintf("html|%s|%s|%v", f, n.Kind, v), v != "")
+			}
+		}
+	}
+	// name tests agree with the name functions: //*[local-name() = N] = //N for every element name
+	seen := map[string]bool{}
+	for _, e := range w.d.Elements() {
+		if seen[e.Local] || e.Local == "" || strings.ContainsAny(e.Local, ":'\"") {
+			continue
+		}
+		seen[e.Local] = true
+		byFn := xast.Abs(xast.DS(), xast.S("child", xast.AnyT(), xast.Binary{Op: "=", L: xast.Fn("local-name"), R: xast.Lit{S: e.Local}}))
+		w.check(r, "html/by-local-name", idx, w.d.Root, xast.Fn("count", byFn), false)
+	}
+}
+
 func c12Case(r *evid.Run, tier string, idx int, g *rng.R) {
+	if idx%10 == 6 {
+		c12HTML(r, idx, g)
+		return
+	}
 	o := adoc.GenOpts{MinNodes: 5, MaxNodes: 35, NS: 1 + g.Intn(2), Misc: true, Weird: g.P(30), Lang: true, NoXMLNS: g.P(20)}
 	d := adoc.Generate(g, o)
 	if idx%150 == 17 {
